@@ -214,7 +214,20 @@ func VerifC14Via() {
 			case 1:
 				es = append(es, "1.0 fred (comment)")
 			case 2:
-				es = append(es, self)
+				// this instance's own entry, as emitted or respelled by an intermediary: any run of
+				// spaces and tabs may separate protocol and pseudonym, and a comment may follow
+				e := self
+				if k := vf.Choice("self-spelling", 3); k > 0 {
+					ws := vf.String("via-whitespace", k)
+					for x := 0; x < len(ws); x++ {
+						vf.Assume(ws[x] == ' ' || ws[x] == '\t')
+					}
+					e = "1.1" + ws + strings.TrimPrefix(self, "1.1 ")
+					if k == 2 {
+						e += " (respelled)"
+					}
+				}
+				es = append(es, e)
 				loop = true
 			}
 		}
